@@ -2,12 +2,12 @@ SPECIFICATION Spec
 CONSTANTS
   TSeq <- TSeqC
   InitT <- InitTC
-  Nets <- NetsQ
+  Nets <- NetsT
   Labels <- LabelsC
   FreshL <- FreshC
   Tags <- TagsC
-  MaxDepth = 5
-  Prefill = FALSE
+  MaxDepth = 3
+  Prefill = TRUE
   Record = FALSE
   PreFix = FALSE
   Repeats = FALSE
